@@ -124,6 +124,18 @@ CHECKS["C11"] = dict(
          "two linters).",
     ref="4 C11", technique="TLA+ model checking (TLC) + spec-to-code replay + trace validation")
 
+CHECKS["C12"] = dict(
+    text="Using the transcribed lexer and condensing passes, TLC checks for every paragraph stem + '.' + blank line "
+         "and every following text within bounds that tokens(P o D) = tokens(P) o shift(tokens(D)) "
+         "(spec/Paragraphs.tla) - the place where cursor-based passes and look-ahead lexers can reach across the "
+         "break. On the real code, (P, D) pairs from the repository's own test sentences (with sentence-final "
+         "numbers, initialisms, abbreviations; D starting with mergeable tokens) are linted with all rules on, "
+         "separately and joined, and TLC validates the multiset equation lints(PD) = lints(P) + shift(lints(D)) "
+         "(spec/trace/Trace_Paragraphs.tla).",
+    note="Trusted: TLC; lint identity = digest of the serialised lint with the span shifted by the harness. The "
+         "rule-level locality (chunk/sentence/paragraph) is bound by trace validation only.",
+    ref="4 C12", technique="TLA+ model checking (TLC) + trace validation")
+
 NOT_YET = {}
 
 
